@@ -523,6 +523,11 @@ def _savepair(ck: Checker) -> None:
                     items = isinstance(gen.iter, ast.Call) and is_method_call(gen.iter, "items")
                     ok = items and used <= bound and isinstance(alt.elt, ast.Tuple) and len(alt.elt.elts) == 3
                     why = norm(alt)
+                    if ok and not all(isinstance(e, ast.Name) and e.id in bound for e in alt.elt.elts):
+                        # (path, hash, None) would make the state stat the file again *after* it was hashed: a file
+                        # rewritten in between gets its new inode/mtime/size paired with the old digest
+                        ok = False
+                        why = f"row {norm(alt.elt)} does not carry the stat taken before hashing (the state would re-stat the file after hashing: a concurrent rewrite pairs the new mtime/size with the old digest)"
             ck.require(ok, "C13.savepair", gh, c, "each saved row (path, hash, info) is taken from one item of the fresh-hash dict", f"saved rows are not projections of single dict items: {why}")
     add = prog.func("hashfile.db", "HashFileDB.add")
     his = [c for c in walk_own(add.node) if isinstance(c, ast.Call) and call_name(c) == "HashInfo"]
